@@ -670,7 +670,15 @@ where
                                 .reason_code(DisconnectReasonCode::KeepAliveTimeout)
                                 .build()
                             {
-                                events.extend(self.process_send_v5_0_disconnect(disconnect));
+                                if self.validate_maximum_packet_size_send(disconnect.size()) {
+                                    events.extend(self.process_send_v5_0_disconnect(disconnect));
+                                } else {
+                                    // DISCONNECT does not fit the peer's Maximum Packet Size:
+                                    // the keep-alive timeout still has to close the connection
+                                    self.status = ConnectionStatus::Disconnected;
+                                    self.cancel_timers(&mut events);
+                                    events.push(GenericEvent::RequestClose);
+                                }
                             }
                         }
                     }
@@ -695,7 +703,15 @@ where
                                 .reason_code(DisconnectReasonCode::KeepAliveTimeout)
                                 .build()
                             {
-                                events.extend(self.process_send_v5_0_disconnect(disconnect));
+                                if self.validate_maximum_packet_size_send(disconnect.size()) {
+                                    events.extend(self.process_send_v5_0_disconnect(disconnect));
+                                } else {
+                                    // DISCONNECT does not fit the peer's Maximum Packet Size:
+                                    // the keep-alive timeout still has to close the connection
+                                    self.status = ConnectionStatus::Disconnected;
+                                    self.cancel_timers(&mut events);
+                                    events.push(GenericEvent::RequestClose);
+                                }
                             }
                         }
                     }
